@@ -1064,7 +1064,12 @@ class Product(Expression):
         if len(expressions) == 1:
             return expressions[0]
         # factors whose keys tie are ordered by their text, so the result does not depend on the input order
-        return cls(expressions=tuple(sorted(expressions, key=lambda e: (e._get_key(), e.to_text()))))
+        # (to_text omits the value mark of a counterfactual variable, to_y0 keeps it)
+        return cls(
+            expressions=tuple(
+                sorted(expressions, key=lambda e: (e._get_key(), e.to_text(), e.to_y0()))
+            )
+        )
 
     def _get_key(self):  # type:ignore
         inner_keys = (sexpr._get_key() for sexpr in self.expressions)
